@@ -372,8 +372,13 @@ class Monitor:
 
     def act(self, a, newc, ts):
         op = a[0]
-        if op == "mk":
-            i, iv = int(a[1]), int(a[2])
+        if op in ("pair", "lis", "con"):
+            i = int(a[1])
+            if i not in self.used and i < 1000:
+                self.used.add(i)
+                self.alive[i] = {"pair": "c", "lis": "l", "con": "e"}[op]
+        elif op == "mk":
+            i, iv = int(a[1]), max(1, int(a[2]))
             if i not in self.used and i < 1000:
                 self.used.add(i)
                 self.alive[i] = "t"
@@ -565,7 +570,7 @@ def c14_timer_reference(hist):
 
     def act(a):
         if a[0] == "mk":
-            i, iv = int(a[1]), int(a[2])
+            i, iv = int(a[1]), max(1, int(a[2]))
             if i not in used and i < 1000:
                 used.add(i)
                 order.append(i)
@@ -649,7 +654,7 @@ def c14_timer_history(rng, equal_due=False):
     ids = list(range(1, n + 1))
     extra = list(range(20, 20 + rng.randint(0, 4)))
     for i in ids:
-        h.append(f"act mk:{i}:{base_iv if equal_due or rng.random() < 0.5 else rng.randint(1, 3)}")
+        h.append(f"act mk:{i}:{base_iv if equal_due or rng.random() < 0.5 else rng.randint(0, 3)}")
     allids = ids + extra
     for i in allids:
         for k in range(rng.randint(0, 4)):
@@ -701,8 +706,8 @@ def c14_mixed_history(rng, with_net=True):
     for e in ests:
         if rng.random() < 0.3:
             h.append(f"cfail {e}")
-    allc = clients + autos
-    socks = clients + listeners + ests + autos
+    allc = clients + autos + (list(range(60, 70)) if with_net else [])
+    socks = clients + listeners + ests + autos + (list(range(60, 70)) if with_net else [])
 
     def rand_act(owner):
         r = rng.random()
@@ -714,7 +719,8 @@ def c14_mixed_history(rng, with_net=True):
         if r < 0.74 and listeners: return f"rml:{rng.choice(listeners)}"
         if r < 0.80 and ests: return f"rme:{rng.choice(ests)}"
         if r < 0.86 and timers: return f"rmt:{rng.choice(timers)}"
-        if r < 0.92: return f"mk:{rng.randint(30, 35)}:{rng.randint(1, 3)}"
+        if with_net and r < 0.885: return f"{rng.choice(['pair', 'pair', 'lis', 'con'])}:{rng.randint(60, 69)}"
+        if r < 0.92: return f"mk:{rng.randint(30, 35)}:{rng.randint(0, 3)}"
         if r < 0.96: return "intr"
         return f"rd:{owner}"
 
